@@ -199,6 +199,57 @@ def _sig_def_label_lone_backslash(case: dict, f: Failure) -> bool:
     return re.search(r"^[ >]*\[[^\]\n]+\]:[ \t]*\\$", once, re.M) is not None
 
 
+def _sig_escaped_numeral_in_tag_paragraph(case: dict, f: Failure) -> bool:
+    """Same root cause as C01's finding of this name: a paragraph with a tag-delimiter line and a source line that starts
+    with an escaped numeral; with the numeral escapes written as entities (nothing for the renderer to drop) the input is
+    formatted idempotently."""
+    import re
+
+    from vf.props import c01
+
+    if case.get("kind", "md") != "md" or case["opts"].get("plaintext") or not f.bucket.startswith("not-idempotent"):
+        return False
+    x, o = case["text"], dict(case["opts"])
+    if not (c01._TAG_EDGE.search(x) and c01._ESC_NUM_LINE.search(x)):
+        return False
+    x2 = re.sub(r"^([ \t>]*(?:[-*+] +)?\d{1,9})\\([.)])", lambda m: m.group(1) + ("&#46;" if m.group(2) == "." else "&#41;"), x, flags=re.M)
+    once = opts.fmt(x2, o)
+    return opts.fmt(once, o) == once
+
+
+def _sig_tag_block_heuristics(case: dict, f: Failure) -> bool:
+    """A paragraph has a line that starts or ends with a tag delimiter, which switches on the tag heuristics (lines that look
+    like list items or table rows keep their own line, are not escaped, and are set off from a tag line by a blank line).
+    They look at the line structure of the text they are given, and the first run's wrapping changes that structure: the
+    second run differs from the first only by line breaks, blank lines, indentation and numeral escapes."""
+    import re
+
+    from vf.props import c01
+
+    if case.get("kind", "md") != "md" or case["opts"].get("plaintext") or not f.bucket.startswith("not-idempotent"):
+        return False
+    o = dict(case["opts"])
+    once = opts.fmt(case["text"], o)
+    twice = opts.fmt(once, o)
+    if not c01._TAG_EDGE.search(once):
+        return False
+
+    def norm(t: str) -> list[str]:
+        return [w for w in re.sub(r"(\d)\\([.)])", r"\1\2", t).split() if w != ">"]
+
+    return once != twice and norm(once) == norm(twice)
+
+
+def _sig_code_span_edge_spaces(case: dict, f: Failure) -> bool:
+    """The first output has a code span whose content begins and ends with a space (and is not all spaces)."""
+    import re
+
+    if case.get("kind", "md") != "md" or case["opts"].get("plaintext") or not f.bucket.startswith("not-idempotent"):
+        return False
+    once = opts.fmt(case["text"], dict(case["opts"]))
+    return re.search(r"(?<!`)(`+) (?:[^`\n]|(?!\1(?!`))`)*[^ `\n](?:[^`\n]|(?!\1(?!`))`)* \1(?!`)", once) is not None
+
+
 def _sig_tight_list_flips(case: dict, f: Failure) -> bool:
     """list_spacing=preserve: the second run only ADDS blank lines, each directly before a list item marker, and the
     third run changes nothing (a tight list whose item holds several blocks -- e.g. a heading followed by text, or a
@@ -235,7 +286,8 @@ def _sig_tight_list_flips(case: dict, f: Failure) -> bool:
 
 def _sig_blank_lines_settle(case: dict, f: Failure) -> bool:
     """Markdown mode: the first and second outputs are identical once lines holding only container prefix characters
-    ('>' and whitespace) are removed, and the second output is a fixed point. (Blank-line placement inside containers
+    ('>' and whitespace) are removed, and the second output is a fixed point (up to a trailing blank on such a line, which
+    the third run settles). (Blank-line placement inside containers
     depends on renderer flags whose state differs between reading the source and reading flowmark's own output.)"""
     if case.get("kind", "md") != "md" or not f.bucket.startswith("not-idempotent"):
         return False
@@ -244,8 +296,11 @@ def _sig_blank_lines_settle(case: dict, f: Failure) -> bool:
         return False
     once = opts.fmt(case["text"], o)
     twice = opts.fmt(once, o)
-    if once == twice or opts.fmt(twice, o) != twice:
+    if once == twice:
         return False
+    third = opts.fmt(twice, o)
+    if third != twice and (opts.fmt(third, o) != third or [l.rstrip() for l in third.split("\n")] != [l.rstrip() for l in twice.split("\n")]):
+        return False  # not settled after the second run (a third run may still turn ">" into "> " on such a line)
 
     def core_lines(t: str) -> list[str]:
         if o.get("smartquotes"):  # may coincide with the nested-quote finding: compare modulo quote style
@@ -285,7 +340,12 @@ def _sig_ellipsis_before_escape(case: dict, f: Failure) -> bool:
     return re.search(r"\.\.\.[^\s\w]*[ \t]*(?:\n[ \t>]*)?\\|\\[^\w\s][ \t]*(?:\n[ \t>]*)?\.\.\.", once) is not None and opts.fmt(once2, o2) == once2
 
 
+DECOMPOSE_KEY = "text"  # several recorded findings in one document: see core.sig_hit
+
 SIGS = {
+    "code_span_edge_spaces": _sig_code_span_edge_spaces,
+    "tag_block_heuristics_second_run": _sig_tag_block_heuristics,
+    "escaped_numeral_in_tag_paragraph": _sig_escaped_numeral_in_tag_paragraph,
     "def_label_with_lone_backslash": _sig_def_label_lone_backslash,
     "table_first_block_of_list_item": _sig_table_first_in_item,
     "list_directly_under_pipe_line": _sig_list_under_pipe_line,
@@ -330,7 +390,11 @@ def _hazard_case(draw):
     from vf.props import c01
 
     n = draw(st.integers(2, 9))
-    words = [draw(st.sampled_from(c01.FILL)) if draw(st.integers(0, 2)) else draw(st.sampled_from(c01.HAZARDS)) for _ in range(n)]
+    # "{%" and "<!--" switch on the tag heuristics (recorded known finding tag-block-heuristics-second-run): left out here
+    # two lone "`" / "````" words make a code span whose content begins and ends with a space (known finding
+    # code-span-edge-spaces): left out as well
+    haz = [h for h in c01.HAZARDS if h not in ("{%", "<!--", "`", "````")]
+    words = [draw(st.sampled_from(c01.FILL)) if draw(st.integers(0, 2)) else draw(st.sampled_from(haz)) for _ in range(n)]
     if draw(st.booleans()):
         words[0] = draw(st.sampled_from(c01.FILL))
     ii, _si = c01.CONTEXTS[draw(st.sampled_from(sorted(c01.CONTEXTS)))]
@@ -341,7 +405,7 @@ def _hazard_case(draw):
 
 
 def shard_work(ctx: Ctx) -> None:
-    feat = docdomain.features("C02", ctx)
+    feat = frozenset(docdomain.features("C02", ctx) | {"no_lone_tick"})
     ctx.run_hypothesis("hazard_words_every_width", _hazard_case(), ctx.n(6000, 300000))
     ctx.run_hypothesis("markdown", _md_case(feat), ctx.n(6000, 300000))
     ctx.run_hypothesis("plaintext", _plaintext_case(), ctx.n(2000, 60000))
